@@ -99,7 +99,9 @@ def run(pid, tier, seed=0, jobs=None, only=None, verbose=False):
                 if only and only not in key:
                     continue
                 label = c.name or key.split(':')[1]
-                if c.cases:
+                if c.blocks_only:
+                    pass
+                elif c.cases:
                     nchunk = 32
                     for ch in range(nchunk):
                         tasks.append((key, i, timeout_ms, label, (ch, nchunk), None))
